@@ -558,3 +558,97 @@ class _:
             ])(o.self, v._it0),
         )
     }
+
+
+# --- the what-if wrappers OverhangResolver works with (build_utils.py) -----------------------------------------------------
+# C18: "the overhang, bait-overlap and what-if properties equal interval arithmetic" - also when read through a premise
+
+U = "tola.assembly.build_utils"
+SP, EP = TRef("StartOverhangPremise"), TRef("EndOverhangPremise")
+
+
+@contract(f"{U}.StartOverhangPremise.bait_overlap", kind="property", properties=("C18", "C01"))
+class _:
+    params = {"self": SP}
+    result = INT
+    requires = staticmethod(lambda o: o.self.scaffold.rows.len > 0)
+    pure = staticmethod(lambda o, p: (lambda s: isect_size(s.bait.start, s.bait.end, s.start, s.start + s.rows[0].length - 1))(p.scaffold))
+
+
+@contract(f"{U}.EndOverhangPremise.bait_overlap", kind="property", properties=("C18", "C01"))
+class _:
+    params = {"self": EP}
+    result = INT
+    requires = staticmethod(lambda o: o.self.scaffold.rows.len > 0)
+    pure = staticmethod(lambda o, p: (lambda s: isect_size(s.bait.start, s.bait.end, s.end - s.rows[-1].length + 1, s.end))(p.scaffold))
+
+
+def _premise_whatif(cls, ty, start):
+    @contract(f"{U}.{cls}.overhang_if_applied", kind="property", properties=("C18", "C01"))
+    class _:
+        params = {"self": ty}
+        result = INT
+        requires = staticmethod(lambda o: [("wf", wf(o.self.scaffold)), ("nonempty", o.self.scaffold.rows.len > 0)])
+        modifies = staticmethod(lambda o: [("alloc",), ("fresh-lists", ROW)])
+
+        @staticmethod
+        def ensures(o, n, res):
+            s = o.self.scaffold
+            j = z3.Int("j!whatif")
+            if start:
+                body = z3.And(first_contig_after(s, j), res == s.bait.start - (1 + s.g_src.cum(s.g_lo + j) - z3.If(s.rows.len == 1, s.g_te, 0)))
+            else:
+                body = z3.And(last_contig_before(s, j), res == (s.g_src.cum(s.g_hi + 1 - j) + z3.If(s.rows.len == 1, s.g_ts, 0)) - s.bait.end)
+            return [("value-of-the-what-if", z3.Exists([j], body))]
+
+    @contract(f"{U}.{cls}.overhang_error_delta_if_applied", kind="property", properties=("C18", "C01"))
+    class _:
+        params = {"self": ty}
+        result = INT
+        requires = staticmethod(lambda o: [("wf", wf(o.self.scaffold)), ("nonempty", o.self.scaffold.rows.len > 0)])
+        modifies = staticmethod(lambda o: [("alloc",), ("fresh-lists", ROW)])
+
+        @staticmethod
+        def ensures(o, n, res):
+            s = o.self.scaffold
+            j = z3.Int("j!whatif")
+            now = (s.bait.start - s.start) if start else (s.end - s.bait.end)
+            if start:
+                then = s.bait.start - (1 + s.g_src.cum(s.g_lo + j) - z3.If(s.rows.len == 1, s.g_te, 0))
+                where = first_contig_after(s, j)
+            else:
+                then = (s.g_src.cum(s.g_hi + 1 - j) + z3.If(s.rows.len == 1, s.g_ts, 0)) - s.bait.end
+                where = last_contig_before(s, j)
+            return [("change-of-the-absolute-overhang", z3.Exists([j], z3.And(where, res == smt.Abs(then) - smt.Abs(now))))]
+
+
+_premise_whatif("StartOverhangPremise", SP, True)
+_premise_whatif("EndOverhangPremise", EP, False)
+
+
+@contract(f"{U}.OverhangPremise.improves", properties=("C18", "C01", "C02"))
+class _:
+    # removing the terminal contig is an improvement iff more than one row is left, the absolute overhang shrinks and
+    # the overhang left behind is not a large negative one (more than three error lengths: that contig is cut instead)
+    params = {"self": TRef("OverhangPremise"), "err_length": INT}
+    result = BOOL
+    requires = staticmethod(lambda o: [("wf", wf(o.self.scaffold)), ("nonempty", o.self.scaffold.rows.len > 0),
+                                       ("a-start-or-an-end-premise", z3.Or(o.self.isinstance("StartOverhangPremise"), o.self.isinstance("EndOverhangPremise")))])
+    modifies = staticmethod(lambda o: [("alloc",), ("fresh-lists", ROW)])
+
+    @staticmethod
+    def ensures(o, n, res):
+        s = o.self.scaffold
+        j = z3.Int("j!whatif")
+        out = [("single-row-is-never-removed", z3.Implies(s.rows.len == 1, z3.Not(res)))]
+        for cls, start in (("StartOverhangPremise", True), ("EndOverhangPremise", False)):
+            now = (s.bait.start - s.start) if start else (s.end - s.bait.end)
+            if start:
+                then = s.bait.start - (1 + s.g_src.cum(s.g_lo + j) - z3.If(s.rows.len == 1, s.g_te, 0))
+                where = first_contig_after(s, j)
+            else:
+                then = (s.g_src.cum(s.g_hi + 1 - j) + z3.If(s.rows.len == 1, s.g_ts, 0)) - s.bait.end
+                where = last_contig_before(s, j)
+            out.append((f"improves-iff[{cls}]", z3.Implies(z3.And(o.self.isinstance(cls), s.rows.len != 1),
+                                                            z3.Exists([j], z3.And(where, res == z3.And(smt.Abs(then) - smt.Abs(now) < 0, then > -3 * o.err_length))))))
+        return out
